@@ -1029,11 +1029,16 @@ def rule_id_attr(model):
                 return 'configured'
         return f'`{norm(e)}`'
     n = 0
+    idp = ex.params()[1] if len(ex.params()) > 1 else None
     for g, c in callers(ex):
-        if len(c.args) < 2:
-            continue
         n += 1
-        o = origin(c.args[1], g)
+        a = arg_for(ex, c, idp) if idp else None
+        if a is None:
+            d = model.param_default(ex, idp) if idp else None
+            o = (f'the default {norm(d)} of {ex.name}() (no id attribute '
+                 'passed)') if d is not None else 'no id attribute'
+        else:
+            o = origin(a, g)
         r.instance(g.where, c, 'configured id attribute'
                    if o == 'configured' else o)
         if o != 'configured':
